@@ -13,18 +13,22 @@ class Pool:
     """A configuration family: geometry + pools of named materials, attenuations, sources,
     run parameters.  Equal names denote equal data (the model's `inp` terms)."""
 
-    def __init__(self, rng, multi_dir=None, n_bands=None):
+    def __init__(self, rng, multi_dir=None, n_bands=None, in_sampling=None):
         self.sides, self.patch = scenes.gen_room_params(rng, small=True)
         self.B = int(n_bands or rng.choice([1, 2, 3]))
         md = (rng.random() < 0.4) if multi_dir is None else multi_dir
         self.samp_par = (1, int(rng.choice([3, 4])), float(rng.uniform(0.5, 2)), float(rng.uniform(0, 1))) if md else None
         n = 1 if not md else self.samp_par[0] * self.samp_par[1]
+        # incoming directions on their own sampling (other count, other positions) in some pools
+        self.samp_in_par = (1, int(rng.choice([2, 3, 5])), float(rng.uniform(0.5, 2)), float(rng.uniform(0, 1))) \
+            if (md and (rng.random() < 0.6 if in_sampling is None else in_sampling)) else None
+        n_in = n if self.samp_in_par is None else self.samp_in_par[0] * self.samp_in_par[1]
         self.mats = {}
         for k in range(4):
             if md and k % 2 == 1:
-                t = rng.uniform(0, 1 / np.pi, size=(n, n, self.B))
+                t = rng.uniform(0, 1 / np.pi, size=(n_in, n, self.B))
             else:
-                t = np.ones((n, n, self.B)) * (1 - rng.uniform(0, 1, size=self.B)) / np.pi
+                t = np.ones((n_in, n, self.B)) * (1 - rng.uniform(0, 1, size=self.B)) / np.pi
             self.mats['m%d' % k] = t
         self.atts = {'a%d' % k: rng.uniform(0, 0.3, size=self.B) for k in range(2)}
         self.atts['a0'] = np.zeros(self.B) if rng.random() < 0.3 else self.atts['a0']
@@ -55,8 +59,17 @@ class Pool:
         s.azimuth = s.azimuth + off * 0.37
         return s
 
+    def sampling_in(self):
+        if self.samp_in_par is None:
+            return self.sampling()
+        nt, nph, scale, off = self.samp_in_par
+        s = scenes.hemisphere_sampling(nt, nph, weight_scale=scale)
+        s.azimuth = s.azimuth + off * 0.41
+        s.colatitude = np.clip(s.colatitude + 0.11, 0.02, np.pi / 2 - 0.02)
+        return s
+
     def describe(self):
-        return {'sides': self.sides, 'patch': self.patch, 'B': self.B, 'multi_dir': self.samp_par,
+        return {'sides': self.sides, 'patch': self.patch, 'B': self.B, 'multi_dir': self.samp_par, 'incoming_sampling': self.samp_in_par,
                 'pars': {k: [float(x) for x in v] for k, v in self.pars.items()}}
 
 
@@ -173,7 +186,7 @@ def apply_op(r, op, pool, tmpdir, inputs_log=None):
     if k == 'S':
         data = pool.mats[op[2]].copy()
         fd = pf.FrequencyData(data, pool.freqs)
-        si, so = pool.sampling(), pool.sampling()
+        si, so = pool.sampling_in(), pool.sampling()
         walls = np.array(op[1])
         before = (h_arr(fd.freq), h_arr(si.cartesian), h_arr(so.cartesian), h_arr(walls), h_arr(si.weights))
         r.set_wall_brdf(walls, fd, si, so)
